@@ -9,18 +9,27 @@ import common, lbtool, epollhook
 
 LEVEL = 'proof'
 PROP = 'C10'
-MODULES = ['Netpoll.Props.C10', 'Netpoll.Tie.Poll']
+MODULES = ['Netpoll.Props.C10', 'Netpoll.Tie.Poll', 'Netpoll.Tie.Dial', 'Netpoll.Tie.Life']
 MANIFEST = dict(
     text='Lean 4 invariant proof over an interleaving model of one poller slot through any number of owners: for every sequence of alloc / register / fetch / dispatch / end-of-batch / close steps, stale Release calls, Release calls of the live owner (token taken and given back: C10_token_returned) and '
          'hang-ups recorded in a batch and delivered later by the hang-up goroutine (at any point of any continuation: after the owner closed, after the slot was reused), '
          'a fetched event is only ever dispatched to the callbacks of the owner it was fetched for (or dropped), a recorded hang-up only ever reaches the onHup of the owner it was recorded for, '
          'no stale call takes a later owner\'s token, and a slot returns to the free chain only between batches with nothing installed. '
+         'The owner of a slot is a connection or a DIAL in progress (pollDesc: newPollDesc, WaitWrite registering PollWritable, detach by onwrite / by the poller\'s hang-up path / by WaitWrite\'s own ctx.Done() branch, connect\'s deferred Free, then the close of the descriptor): '
+         'nothing is registered in epoll under a slot its owner has given back (C10_freed_slot_not_registered). A Write / Flush IN FLIGHT across the close of its connection (past IsActive(), holding lock(flushing)) '
+         'still works on its own open descriptor and its own operator: the finalizer does stop(flushing) before operator.Free() and netFD.Close() (C10_fd_open_while_writer_in_flight, witness C10_free_before_stop_witness). '
          'The model is tied to fd_operator.go / fd_operator_cache.go / poll_default.go / poll_default_linux.go (a) by executing the poller loop body step by step on real connections and comparing every step with the model '
          '(including several hang-ups dispatched in one handler call with the goroutine held at a blocked OnDisconnect while users close, the batch ends and new connections take the slots), '
          '(b) by sequences in which the REAL defaultPoll.Wait is the poller (schedule point after epoll_wait through an overlay copy of sys_epoll_linux.go, p.Handler wrapped): closes placed between the return of its epoll_wait and its next statement, '
-         'opens placed between its fetch and its dispatch, and (c) by T-gen tie lemmas on the code the harness replaces or cannot schedule: the order fetch / dispatch / opcache.free of Wait\'s loop body and appendHup copying operator.OnHup into a list of funcs (Netpoll.Tie.Poll).',
+         'opens placed between its fetch and its dispatch, (b2) by steps in which a real Write() is parked in front of its sendmsg (schedule point through an overlay copy of sys_sendmsg_linux.go) while the owner\'s Close() runs and probe descriptors are opened: '
+         'the writer\'s bytes must not appear on a probe, (b3) by dial steps (real newPollDesc / WaitWrite / onwrite / onhup / detach / Free on a never-ready descriptor; the harness cancels the context, delivers peer events and places connect\'s deferred Free and socket()\'s close as separate steps) '
+         'with the registrations read from the REAL epoll set (/proc/self/fdinfo): a live connection is the only descriptor registered under its slot\'s pointer, '
+         'and (c) by T-gen tie lemmas on the code the harness replaces or cannot schedule: the order fetch / dispatch / opcache.free of Wait\'s loop body and appendHup copying operator.OnHup into a list of funcs (Netpoll.Tie.Poll); who detaches a dial operator in which branch of pollDesc.WaitWrite / onwrite / onhup, connect\'s deferred Free and socket()\'s close after it (Netpoll.Tie.Dial); '
+         'the statement order of the close finalizer stop(flushing), operator.Free(), netFD.Close(), closeBuffer() (Netpoll.Tie.Life.sync_connection_initFinalizer).',
     note='partial: A-epoll-del (no event is fetched for a descriptor after EPOLL_CTL_DEL returned) and one-poller-per-cache are assumptions; the residual window of a Release racing the close of its own connection is outside the model (stale = the close has completed). '
-         'The defect fixed by 1c26766 and a hang-up queue that holds slots instead of the copied funcs are kept as Lean witnesses.',
+         'The dial steps mirror two statements of netFD.connect / socket() (deferred Free, close on error; tied by connectDefer_eq / socket_closes_on_dial_error) on a socketpair end with a full send buffer instead of a TCP socket in SYN_SENT; '
+         'without the sendmsg overlay (changed signature) the write-in-flight steps are skipped and only the finalizer-order tie remains. '
+         'The defect fixed by 1c26766, a finalizer that frees before it waits for the flusher, and a hang-up queue that holds slots instead of the copied funcs are kept as Lean witnesses.',
     technique='Lean 4 inductive invariant over a slot-reuse interleaving model + step-by-step trace conformance with the real poller code (harness as poller, and the real Wait loop as poller) + T-gen ties', design='§6 C10')
 
 def shard(binary, wd, seed, seqs, nops, hazard=False):
@@ -47,6 +56,8 @@ def analyse(wd, rc=0):
                 seen.add(t[2])
             if t[0] == 'dispatch' and 'ran=none' in i: res['skipped_events'] += 1
             if t[0] == 'stale': res['stale'] += 1
+            if t[0] == 'wclose': res['wclose'] = res.get('wclose', 0) + 1
+            if t[0] == 'dfree': res['dial_frees'] = res.get('dial_frees', 0) + 1
             if t[0] == 'dispatchall' and ':hupq' in o: res['delayed'] = res.get('delayed', 0) + 1
         if len(si) > 1: res['finals'].add(si[-1])
         bad = next((k for k, l in enumerate(si) if l.startswith('panic') or l.startswith('BYSTANDER-FAIL') or l == 'hang'), None)
@@ -92,14 +103,17 @@ def run(rep):
     rep.cov.update(evaluations=n, distinct_nontrivial=len(finals), step_histogram=dict(hist), slot_reuses=reuse, events_skipped_after_close=skipped, stale_calls=stale,
                    traces_validated_against_impl=n, samples=results[0]['samples'],
                    rule='random step sequences over up to 6 real connections sharing one private poller whose loop body the harness executes step by step (fetch = real EpollWait, dispatch = real handler on one event or on the rest of the batch, end of batch = opcache.free), '
-                        'with closes placed between fetch and dispatch, slot reuse by new connections, hang-up goroutines held at a blocked OnDisconnect stale Release/Close/Next/Write/Flush on closed connections, Release on LIVE connections between steps (rel) and in a loop on another goroutine during a dispatch of arriving input (drel); every 4th sequence the real defaultPoll.Wait is the poller '
-                        '(closes after its epoll_wait returned, opens in front of its handler); every step compared with the Lean model; bystanders must receive exactly what was sent and stay open and registered. distinct_nontrivial = distinct final slot observations')
+                        'with closes placed between fetch and dispatch, slot reuse by new connections, hang-up goroutines held at a blocked OnDisconnect stale Release/Close/Next/Write/Flush on closed connections, Write() in flight across Close() with probe descriptors opened meanwhile (wclose), dials in progress as slot owners (dial / dev hup|out / dtimeout / dfree / dclosefd, at most 3 per sequence; one sequence in five starts with a directed prelude: write in flight across close, dial timeout - Free - end of batch - slot reuse - late event - close of the descriptor, dial hang-up queued behind a blocked hang-up entry and delivered after the slot was reused), Release on LIVE connections between steps (rel) and in a loop on another goroutine during a dispatch of arriving input (drel); every 4th sequence the real defaultPoll.Wait is the poller '
+                        '(closes after its epoll_wait returned, opens in front of its handler); every step compared with the Lean model; bystanders must receive exactly what was sent, stay open and be the only descriptor registered under the pointer of their slot in the real epoll set. distinct_nontrivial = distinct final slot observations')
     rep.cov['real_wait_rounds'] = hist.get('waitround', 0)
     rep.cov['handler_calls_with_delayed_hangups'] = sum(r.get('delayed', 0) for r in results)
+    rep.cov['writes_in_flight_across_close'] = sum(r.get('wclose', 0) for r in results)
+    rep.cov['dial_operators_freed'] = sum(r.get('dial_frees', 0) for r in results)
     rep.assumptions += ['A-epoll-del: no event is fetched for a descriptor after EPOLL_CTL_DEL returned', 'single harness goroutine: steps are atomic at the granularity of the model']
     genuine = [p for p in problems if p[2] == 'impl-violates-spec']
     others = [p for p in problems if p[2] != 'impl-violates-spec']
     if genuine:
+        genuine.sort(key=lambda p: len(p[0]))   # the shortest failing sequence is the replay
         seq, idx, kind, detail = genuine[0]
         rep.violation('slot isolation broken (%d sequences): %s' % (len(genuine), detail), seq)
     elif others:
